@@ -65,7 +65,9 @@ class Run:
             ranks = {w: 0 for w in ws}
             return PreOCF.init_custom(dict(ranks), None, list(sig)), ranks
         if kind == "custom":
-            ranks = {w: int(p["ranks"][w]) for w in ws}
+            # the order of the rank dict is the user's (by plausibility, hand-written, ...): keep it
+            order = [w for w in p["ranks"] if w in set(ws)]
+            ranks = {w: int(p["ranks"][w]) for w in order}
             return PreOCF.init_custom(dict(ranks), None, list(sig)), ranks
         bb = parse_belief_base(p["base"])
         if list(bb.signature) != sig:
@@ -356,10 +358,49 @@ def _atoms_of_text(t):
     return [x for x in re.findall(r"[A-Za-z][A-Za-z0-9_]*", t) if x not in ("Top", "Bottom")]
 
 
+def _world_formula(sig, bits):
+    return ("and",) + tuple(("var", a) if b == "1" else ("not", ("var", a)) for a, b in zip(sig, bits)) if len(sig) > 1 else (("var", sig[0]) if bits == "1" else ("not", ("var", sig[0])))
+
+
+def _set_formula(sig, worlds):
+    fs = [_world_formula(sig, w) for w in sorted(worlds)]
+    return fs[0] if len(fs) == 1 else ("or",) + tuple(fs)
+
+
+def _gen_world_set_cond(g, sig):
+    """(V | V or F) for disjoint world sets V, F: verified exactly in V, falsified exactly in F."""
+    from sim.gen import workload as W
+
+    ws = [format(i, "0%db" % len(sig)) for i in range(2 ** len(sig))]
+    g.shuffle(ws)
+    nv = g.choice([1, 1, 2])
+    nf = g.randint(1, max(1, min(4, len(ws) - nv)))
+    V, F = ws[:nv], ws[nv : nv + nf]
+    return W.cond_text((_set_formula(sig, V), _set_formula(sig, V + F)))
+
+
+def _gen_chain(g, sig, k):
+    """Doubling chain: the only verifying world of conditional i falsifies all earlier conditionals,
+    so gamma- has to grow like 1, 2, 4, 8, ..."""
+    from sim.gen import workload as W
+
+    ws = [format(i, "0%db" % len(sig)) for i in range(2 ** len(sig))]
+    g.shuffle(ws)
+    U, E = ws[:k], ws[k : 2 * k]
+    out = []
+    for i in range(k):
+        V = [U[i]]
+        F = U[i + 1 :] + [E[i]]
+        out.append(W.cond_text((_set_formula(sig, V), _set_formula(sig, V + F))))
+    return out
+
+
 def _gen_cond(g, sig):
     from sim.gen import workload as W
 
     r = g.random()
+    if len(sig) >= 2 and r > 0.92:
+        return _gen_world_set_cond(g, sig)
     if r < 0.5:
         c = W.gen_conditional(g, sig, "literal")
     elif r < 0.8:
@@ -389,7 +430,11 @@ def generate(prop, verif_seed, idx, tier="quick", cls=None):
     sig = W.ATOMS[:n_atoms]
     nw = 2**n_atoms
     if cls is None:
-        cls = g.choices(["incremental", "revision", "mixed", "two_priors", "rebind", "interrupt"], weights=[23, 23, 19, 12, 13, 10])[0]
+        cls = g.choices(["incremental", "revision", "mixed", "two_priors", "rebind", "interrupt", "chain"], weights=[22, 22, 18, 12, 12, 9, 5])[0]
+    if cls == "chain":
+        n_atoms = g.choice([3, 4])
+        sig = W.ATOMS[:n_atoms]
+        nw = 2**n_atoms
     priors = []
     psigs = []
     for pn in range(2 if cls == "two_priors" else 1):
@@ -402,9 +447,14 @@ def generate(prop, verif_seed, idx, tier="quick", cls=None):
                 psig = psig[:-1]
         psigs.append(psig)
         pw = 2 ** len(psig)
+        if cls == "chain":
+            k = "zero" if g.random() < 0.7 else "custom"
         if k == "custom":
             mx = g.choice([1, 2, 4, 9])
-            p = {"kind": "custom", "ranks": {format(i, "0%db" % len(psig)): g.randrange(0, mx + 1) for i in range(pw)}}
+            keys_ = [format(i, "0%db" % len(psig)) for i in range(pw)]
+            if g.random() < 0.3:
+                g.shuffle(keys_)  # a rank table that is not written in binary counting order
+            p = {"kind": "custom", "ranks": {w: g.randrange(0, mx + 1) for w in keys_}}
         elif k == "zero":
             p = {"kind": "zero"}
         else:
@@ -419,6 +469,7 @@ def generate(prop, verif_seed, idx, tier="quick", cls=None):
             p["sig"] = psig
         priors.append(p)
     ops = []
+    deep_later = {}
     live = {}  # model index -> set of live idx
     ever = {}
     n_models = g.choice([1, 1, 2]) if cls != "two_priors" else 2
@@ -426,17 +477,39 @@ def generate(prop, verif_seed, idx, tier="quick", cls=None):
         n0 = g.randint(0, 3 if n_atoms >= 4 else 4)
         msig = psigs[m % len(priors)]
         conds = [[j + 1, _gen_cond(g, msig)] for j in range(n0)]
+        if cls == "chain" and m == 0:
+            conds = [[j + 1, t] for j, t in enumerate(_gen_chain(g, msig, 4 if len(msig) == 3 or g.random() < 0.6 else 5))]
+        elif len(msig) >= 2 and g.random() < 0.08:
+            # two deep conditionals that differ only below nesting depth 5 (first one now, the other added later)
+            pair = [W.cond_text(c) for c in W.gen_deep_pair(g, msig)]
+            conds = conds[:2] + [[len(conds[:2]) + 1, pair[0]]]
+            deep_later[m] = pair[1]
         if m == 1 and conds and ops and ops[0]["conds"] and g.random() < 0.5:
             # the same conditional text compiled over both priors
             txt = ops[0]["conds"][0][1]
             if all(tok in msig for tok in _atoms_of_text(txt)):
                 conds[0][1] = txt
         ops.append({"op": "new_model", "prior": m % len(priors), "conds": conds})
-        live[m] = {j + 1 for j in range(n0)}
+        live[m] = {c[0] for c in conds}
         ever[m] = set(live[m])
     n_ops = g.randint(3, 12)
     last_fixed = {}
     last_crev = {}
+    if cls == "chain":
+        for gpz in (True, False):
+            for um in (False, True):
+                ops.append({"op": "crev", "model": 0, "gpz": gpz, "use_model": um})
+        n_ops = g.randint(0, 3)
+    for m_, t_ in deep_later.items():
+        # revise by the first deep conditional, swap it for its twin, revise again (same prior object)
+        ops.append({"op": "crev", "model": m_, "gpz": True, "use_model": g.random() < 0.5})
+        idx_ = max(live[m_])
+        ops.append({"op": "remove", "model": m_, "idx": idx_})
+        ops.append({"op": "add", "model": m_, "idx": idx_ + 1, "cond": t_})
+        live[m_].discard(idx_)
+        live[m_].add(idx_ + 1)
+        ever[m_].add(idx_ + 1)
+        ops.append({"op": "crev", "model": m_, "gpz": True, "use_model": g.random() < 0.5})
     if cls == "rebind":
         # query -> change the model under the same indices -> the same query again:
         # anything memoised per model / per index set must not answer for the changed model
@@ -463,7 +536,7 @@ def generate(prop, verif_seed, idx, tier="quick", cls=None):
     for _ in range(n_ops):
         m = g.randrange(n_models)
         r = g.random()
-        w_inc = {"incremental": 0.7, "revision": 0.25, "mixed": 0.5, "two_priors": 0.5, "rebind": 0.5, "interrupt": 0.4}[cls]
+        w_inc = {"incremental": 0.7, "revision": 0.25, "mixed": 0.5, "two_priors": 0.5, "rebind": 0.5, "interrupt": 0.4, "chain": 0.3}[cls]
         if r < w_inc:
             if live[m] and g.random() < 0.4:
                 idx = g.choice(sorted(live[m])) if g.random() < 0.9 else g.randint(1, 8)
@@ -514,7 +587,7 @@ def generate(prop, verif_seed, idx, tier="quick", cls=None):
     for op in ops:
         if op["op"] in ("add", "remove") and g.random() < (0.7 if cls == "rebind" else 0.4):
             op["quiet"] = True
-    doc = {"property": prop, "seed": sseed, "idx": scen_idx, "class": cls, "knobs": {}, "sig": sig, "priors": priors, "ops": ops, "faults": []}
+    doc = {"property": prop, "seed": sseed, "idx": scen_idx, "class": cls, "knobs": ({"loglevel": "INFO"} if g.random() < 0.1 else {}), "sig": sig, "priors": priors, "ops": ops, "faults": []}
     if cls == "interrupt":
         del doc["faults"]
         doc["fault_plan"] = {"n": g.choice([1, 2, 3])}
